@@ -1371,8 +1371,8 @@ def gen_c18(ctx):
         prec = rng.choice(PRECS)
         fr = [0.55 + 0.03 * k for k in range(16)]; rng.shuffle(fr)
         pre = '|'.join('fam:%s;n:%d;ops:F;mem:1;lwfrac:%.2f;nps:%s;oomok:1;fill7frac:3.0;fill8frac:3.0' % (rng.choice(['grid', 'band']), rng.choice([16, 24, 36]), f, rng.choice(['1', '2', '4'])) for f in fr[:rng.choice([3, 6, 10])])
-        a = dict(c); a['probe'] = 5000 + i
-        b = dict(c); b['probe'] = 5000 + i; b['pre'] = pre
+        a = dict(c); a['probe'] = 5000000 + i
+        b = dict(c); b['probe'] = 5000000 + i; b['pre'] = pre
         out.append(({'variant': 'plain', 'prec': prec, 'per_process': True}, a))
         out.append(({'variant': 'plain', 'prec': prec, 'per_process': True}, b))
     # long histories: ~150 assorted complete driver calls (orders 5..44) before the probe; state that is only exhausted or
@@ -1388,8 +1388,8 @@ def gen_c18(ctx):
         c['ops'] = rng.choice(['E', 'E', 'E', 'V', 'F,S0', 'E3', 'E4', 'E1', 'E1']); c['nps'] = '1'      # E1: an exactly zero column (equilibration stops early)
         if rng.random() < 0.25: c['zerorhs'] = rng.choice([1, 1, 2])      # thresholds for tiny denominators come into play
         prec = rng.choice(PRECS)
-        a = dict(c); a['probe'] = 1000 + i
-        b = dict(c); b['probe'] = 1000 + i; b['pre'] = rng.choice(sweeps) % rng.randrange(1, 100000)
+        a = dict(c); a['probe'] = 1000000 + i
+        b = dict(c); b['probe'] = 1000000 + i; b['pre'] = rng.choice(sweeps) % rng.randrange(1, 100000)
         out.append(({'variant': 'plain', 'prec': prec, 'per_process': True}, a))
         out.append(({'variant': 'plain', 'prec': prec, 'per_process': True}, b))
     return out
